@@ -9,6 +9,7 @@ import (
 	"io"
 	"math/rand"
 	"net"
+	"net/http"
 	"net/http/httptest"
 	"strings"
 	"sync"
@@ -225,7 +226,24 @@ func echoSpecs() []*MethodSpec {
 		hb.Set(hb.Descriptor().Fields().ByName("data"), protoreflect.ValueOfBytes(c13Asset))
 		return hb, nil
 	}
+	// PutRaw receives an upload as one HttpBody, serves another request of its own meanwhile (any work
+	// that goes through the mux's buffer pool) and then looks at its data again
+	putRaw := func(ctx context.Context, in *dynamicpb.Message) (proto.Message, error) {
+		file := in.Get(in.Descriptor().Fields().ByName("file")).Message()
+		data := file.Get(file.Descriptor().Fields().ByName("data")).Bytes()
+		before := sha256.Sum256(data)
+		if h := c13NestedMux.Load(); h != nil {
+			nested := httptest.NewRequest("POST", "/c13/unary/nested", strings.NewReader(`{"data":"`+strings.Repeat("enp6", len(data)/3+8)+`"}`))
+			nested.Header.Set("Content-Type", "application/json")
+			serveOn((*h).(http.Handler), nested)
+		}
+		r := reply(in)
+		r.Set(r.Descriptor().Fields().ByName("text"), protoreflect.ValueOfString(map[bool]string{true: "intact", false: "changed-under-the-handler"}[sha256.Sum256(data) == before]))
+		setB(r, "data", data)
+		return r, nil
+	}
 	return []*MethodSpec{
+		{Name: "PutRaw", In: "Req", Out: "Reply", Unary: putRaw, Rule: postRule("/c13/put/{name}", "file")},
 		{Name: "Asset", In: "Req", Out: "google.api.HttpBody", Unary: asset, Rule: getRule("/c13/asset")},
 		{Name: "Early", In: "Req", Out: "Reply", ClientStream: true, ServerStream: true, Stream: early},
 		{Name: "Unary", In: "Req", Out: "Reply", Unary: unary, Rule: postRule("/c13/unary/{name}", "*")},
@@ -238,6 +256,9 @@ func echoSpecs() []*MethodSpec {
 
 var c13Asset = []byte(strings.Repeat("static asset bytes that must never change; ", 8))
 var c13AssetCopy = append([]byte(nil), c13Asset...)
+// c13NestedMux: the mux the PutRaw handler sends its own request through.
+var c13NestedMux atomic.Pointer[interface{}]
+
 var c13HttpBodyDesc = httpbody.File_google_api_httpbody_proto.Messages().ByName("HttpBody")
 
 func withService(ms []*MethodSpec, svc string) []*MethodSpec {
@@ -621,6 +642,27 @@ func stressC13(seed int64, d time.Duration) *StressReport {
 		},
 	}
 
+	// 8: a unary HttpBody upload whose handler goes through the mux again before it looks at its data
+	{
+		var hI interface{} = http.Handler(fx.Mux)
+		c13NestedMux.Store(&hI)
+	}
+	scenarios = append(scenarios, func(rng *rand.Rand, id int) {
+		p := payload(rng)
+		r := httptest.NewRequest("POST", "/c13/put/f"+fmt.Sprint(id), bytes.NewReader(p))
+		r.Header.Set("Content-Type", "application/octet-stream")
+		r.Header.Set("Accept", "application/json")
+		rec, pn := serveOn(fx.Mux, r)
+		if pn != nil || rec.Code != 200 {
+			rep.fail("C13/http-put/failed", "POST /c13/put", fmt.Sprint(rec.Code, pn, truncS(rec.Body.String(), 120)), "200", "a valid upload failed")
+			return
+		}
+		got, text, _, err := replyData(rec.Body.Bytes(), "application/json")
+		if err != nil || text != "intact" || !bytes.Equal(got, p) {
+			rep.fail("C13/http-put/handler-data-changed", fmt.Sprintf("POST /c13/put with %d bytes; the handler serves a nested request before it reads its data again", len(p)), fmt.Sprintf("%s, %d bytes back", text, len(got)), "intact, the upload", "the data a handler received changes while the handler holds it: it aliases a pooled buffer")
+		}
+		atomic.AddInt64(&counts[8], 1)
+	})
 	// 6: a handler that answers with the same slice every time
 	scenarios = append(scenarios, func(rng *rand.Rand, id int) {
 		rec, pn := serveOn(fx.Mux, httptest.NewRequest("GET", "/c13/asset", nil))
@@ -710,7 +752,7 @@ func stressC13(seed int64, d time.Duration) *StressReport {
 	time.Sleep(d)
 	close(stop)
 	wg.Wait()
-	names := []string{"http-unary", "http-client-stream", "httpbody-upload", "grpc-real-server", "raw-frames", "proxy-client-breaks-after-backend-done", "static-asset-reply", "proxy-http-gzip-backend-fails-first"}
+	names := []string{"http-unary", "http-client-stream", "httpbody-upload", "grpc-real-server", "raw-frames", "proxy-client-breaks-after-backend-done", "static-asset-reply", "proxy-http-gzip-backend-fails-first", "http-put-nested"}
 	if !bytes.Equal(c13Asset, c13AssetCopy) {
 		rep.fail("C13/asset/handler-slice-overwritten", "the slice the Asset handler hands out, after the run", fmt.Sprintf("%q", truncS(string(c13Asset), 80)), "unchanged", "the handler's own slice was written by other requests")
 	}
